@@ -166,12 +166,13 @@ static void run_table(std::shared_ptr<Node> root, const std::string &tid, bool a
 static std::shared_ptr<Node> make_table(const std::vector<std::string> &names, int variant, bool dh, std::shared_ptr<Node> child_for_all = nullptr)
 {
     auto n = std::make_shared<Node>();
-    static const char *SPEC[3] = {":", ":i", "::i:f"};
+    static const char *SPEC[5] = {":", ":i", "::i:f", ":ii:f", ":if:s:T"};
     size_t k = 0; bool done_leaf = false, done_sub = false;
     for(auto nm : names) {
         PortDesc p;
         bool sub = !nm.empty() && nm.back() == '/';
-        if(variant == 1 && !sub) nm += SPEC[k % 3];
+        if(variant == 1 && !sub) nm += SPEC[k % 5];
+        if(variant == 1 && sub && k % 2) nm += (k % 4 == 1) ? "::i" : ":i:f";   // sub-tree ports may carry an argument spec too
         if(variant == 2 && !sub && !done_leaf) { nm += "#3"; done_leaf = true; }
         if(variant == 3 && sub && !done_sub) { nm = nm.substr(0, nm.size() - 1) + "#12/"; done_sub = true; }
         if(variant == 3 && !sub && !done_leaf && k + 1 == names.size() && !done_sub) { nm += "#12"; done_leaf = true; }
